@@ -6,7 +6,7 @@
 From Coq Require Import List NArith ZArith Lia.
 From Coq.Strings Require Import Byte.
 Import ListNotations.
-From BWLexer Require Import Utf8 Unicode Lexer LexerProofs CaseProofs PrintedProofs WsProofs WsSim WsMain.
+From BWLexer Require Import Utf8 Unicode Lexer LexerProofs Utf8Proofs CaseProofs PrintedProofs WsProofs WsSim WsMain.
 From BWLexer.Gen Require Import LexTablesGen.
 
 (* ---------------------------------------------------------------- termination / channel closed *)
@@ -110,12 +110,13 @@ Proof. exact keyword_steps. Qed.
 Print Assumptions C16_keywords_case_anywhere.
 
 (* ---------------------------------------------------------------- literal type names regardless of letter case *)
-(* "body"^^type:T with T any capitalisation of an entry of the generated literal type list, body ASCII without double
-   quote and backslash, followed by the end of input or a rune that is neither letter nor digit: one ItemLiteral
-   token spanning the whole lexeme.  Partial: the domain restricts the body (plain_body). *)
+(* "body"^^type:T with T any capitalisation of an entry of the generated literal type list, body ANY bytes (valid UTF-8
+   or not) except the double quote 0x22 and the backslash 0x5C, followed by the end of input or a rune that is neither
+   letter nor digit: one ItemLiteral token spanning the whole lexeme.  Partial only in that the body excludes those two
+   bytes (a body with an escaped quote is outside the property; a trailing backslash is the listed finding). *)
 Theorem C16_literal_type_case_partial : forall (U : uni), ascii_ok U ->
   forall (body ty v rest_bytes : list byte),
-    Forall (fun b => (bz b < 128)%Z /\ bz b <> 34%Z /\ bz b <> 92%Z) body ->
+    Forall (fun b => bz b <> 34%Z /\ bz b <> 92%Z) body ->
     In ty literal_types ->
     Forall2 (fun a b => a = b \/ (is_lower_z (bz b) = true /\ bz a = (bz b - 32)%Z)) v ty ->
     match decode_all rest_bytes with [] => True | (r, _) :: _ => (is_letter U r || is_digit U r)%bool = false end ->
@@ -160,13 +161,15 @@ Proof.
 Qed.
 
 (* ---------------------------------------------------------------- printed forms are single tokens *)
-(* Each printed form alone is lexed as exactly one token carrying exactly that text, followed by EOF.  All six are
-   PARTIAL: the spellings are ASCII, and the domains exclude exactly the spellings of the listed findings
-   (C16_printed_*_refuted below).  U: any unicode record agreeing with ASCII on ASCII. *)
+(* Each printed form alone is lexed as exactly one token carrying exactly that text, followed by EOF.  PARTIAL: the
+   domains exclude the delimiter bytes, i.e. exactly the spellings of the listed findings (C16_printed_*_refuted below)
+   and embedded double quotes; apart from that the bodies (literal text, node type and id, predicate id, anchor text) are
+   ARBITRARY byte strings, valid UTF-8 or not.  Bindings and blank node labels are ASCII letters, digits and '_'.
+   U: any unicode record agreeing with ASCII on ASCII. *)
 
-(* literal  "body"^^type:T : body without double quote and backslash, T in the generated type list *)
+(* literal  "body"^^type:T : body without the bytes 0x22 and 0x5C, T in the generated type list *)
 Theorem C16_printed_literal_partial : forall (U : uni), ascii_ok U -> forall body ty,
-  Forall (fun b => (bz b < 128)%Z /\ bz b <> 34%Z /\ bz b <> 92%Z) body -> In ty literal_types ->
+  Forall (fun b => bz b <> 34%Z /\ bz b <> 92%Z) body -> In ty literal_types ->
   let inp := x22 :: body ++ s_literalType ++ ty in
   lex_with U inp = ([(ItemLiteral, 0, length inp); (ItemEOF, length inp, length inp)], true).
 Proof. exact printed_literal. Qed.
@@ -189,20 +192,20 @@ Theorem C16_printed_blank_node_partial : forall (U : uni), ascii_ok U -> forall 
 Proof. exact printed_bql_blank_node. Qed.
 Print Assumptions C16_printed_blank_node_partial.
 
-(* node  /type<id> : type and id ASCII without '<' '>' and backslash (this covers printed blank nodes /_<uuid>) *)
+(* node  /type<id> : type and id any bytes except '<' '>' and backslash (this covers printed blank nodes /_<uuid>) *)
 Theorem C16_printed_node_partial : forall (U : uni), ascii_ok U -> forall ty id,
-  Forall (fun b => (bz b < 128)%Z /\ bz b <> 60%Z /\ bz b <> 62%Z /\ bz b <> 92%Z) ty ->
-  Forall (fun b => (bz b < 128)%Z /\ bz b <> 60%Z /\ bz b <> 62%Z /\ bz b <> 92%Z) id ->
+  Forall (fun b => bz b <> 60%Z /\ bz b <> 62%Z /\ bz b <> 92%Z) ty ->
+  Forall (fun b => bz b <> 60%Z /\ bz b <> 62%Z /\ bz b <> 92%Z) id ->
   let inp := x2f :: ty ++ x3c :: id ++ [x3e] in
   lex_with U inp = ([(ItemNode, 0, length inp); (ItemEOF, length inp, length inp)], true).
 Proof. exact printed_node. Qed.
 Print Assumptions C16_printed_node_partial.
 
-(* predicate  "id"@[anchor] : id without double quote and backslash; anchor text without double quote, ']' and ','
+(* predicate  "id"@[anchor] : id any bytes except 0x22 and 0x5C; anchor text any bytes except double quote, ']' and ','
    (RFC3339 times and the empty anchor qualify).  Since repository fix F22 the id may start with ^^type: or @[ . *)
 Theorem C16_printed_predicate_partial : forall (U : uni), ascii_ok U -> forall id an,
-  Forall (fun b => (bz b < 128)%Z /\ bz b <> 34%Z /\ bz b <> 92%Z) id ->
-  Forall (fun b => (bz b < 128)%Z /\ bz b <> 34%Z /\ bz b <> 93%Z /\ bz b <> 44%Z) an ->
+  Forall (fun b => bz b <> 34%Z /\ bz b <> 92%Z) id ->
+  Forall (fun b => bz b <> 34%Z /\ bz b <> 93%Z /\ bz b <> 44%Z) an ->
   let inp := x22 :: id ++ s_anchor ++ an ++ [x5d] in
   lex_with U inp = ([(ItemPredicate, 0, length inp); (ItemEOF, length inp, length inp)], true).
 Proof. exact printed_predicate. Qed.
@@ -210,9 +213,9 @@ Print Assumptions C16_printed_predicate_partial.
 
 (* predicate bound  "id"@[lower,upper] *)
 Theorem C16_printed_bound_partial : forall (U : uni), ascii_ok U -> forall id a1 a2,
-  Forall (fun b => (bz b < 128)%Z /\ bz b <> 34%Z /\ bz b <> 92%Z) id ->
-  Forall (fun b => (bz b < 128)%Z /\ bz b <> 34%Z /\ bz b <> 93%Z /\ bz b <> 44%Z) a1 ->
-  Forall (fun b => (bz b < 128)%Z /\ bz b <> 34%Z /\ bz b <> 93%Z /\ bz b <> 44%Z) a2 ->
+  Forall (fun b => bz b <> 34%Z /\ bz b <> 92%Z) id ->
+  Forall (fun b => bz b <> 34%Z /\ bz b <> 93%Z /\ bz b <> 44%Z) a1 ->
+  Forall (fun b => bz b <> 34%Z /\ bz b <> 93%Z /\ bz b <> 44%Z) a2 ->
   let inp := x22 :: id ++ s_anchor ++ (a1 ++ x2c :: a2) ++ [x5d] in
   lex_with U inp = ([(ItemPredicateBound, 0, length inp); (ItemEOF, length inp, length inp)], true).
 Proof. exact printed_bound. Qed.
@@ -228,6 +231,11 @@ Proof.
   - repeat constructor; vm_compute; congruence.
   - repeat constructor; vm_compute; congruence.
 Qed.
+
+(* non-ASCII bodies are in the domain:  /u<世>  (U+4E16, three bytes) *)
+Example C16_printed_node_nonascii_example :
+  lex_out (x2f :: [x75] ++ x3c :: [xe4;xb8;x96] ++ [x3e]) = ([(ItemNode, 0, 7); (ItemEOF, 7, 7)], true).
+Proof. apply (C16_printed_node_partial go_uni C16_go_uni_ascii_ok [x75] [xe4;xb8;x96]); repeat constructor; vm_compute; congruence. Qed.
 
 (* ---- refuted outside those domains: printed values WITHOUT embedded double quote that are not one token *)
 (* predicate with id  a\  prints (%q) as  "a\\"@[]  : the lexer takes the second backslash + quote as an escaped quote;
